@@ -266,7 +266,10 @@ def model_line(desc, lens):
                 if u["kind"] == "F":
                     w.append("sc=%s" % ("A" if u["sc"] is None else u["sc"]))
                 if u["kind"] == "P" or (u["sc"] or 0) == 0:
-                    w += ["w=%d" % (default_wavelet() if u["w"] is None else u["w"]), "who=%s" % fmt(resolved_ho(u)[0]), "dho=%s" % fmt(resolved_ho(u)[1]), "etp=%d" % (1 if u["etp"] else 0)]
+                    # raw fields: the model resolves omitted ones through the GENERATED default table
+                    flag = lambda v: "-" if v is None else str(int(v))  # noqa
+                    w += ["w=%s" % fmt(u["w"]), "aif=%s" % flag(u.get("aif")), "who=%s" % fmt(u.get("who")), "af=%s" % flag(u.get("af")),
+                          "dho=%s" % fmt(u.get("dho")), "etp=%d" % (1 if u["etp"] else 0)]
             if u["kind"] == "H":
                 w += ["pr=%d" % u["profile"], "mv=%s" % ("A" if u["mv"] is None else u["mv"])]
                 for f in ("fr", "sr", "cs", "cp", "cm", "tf"):
@@ -332,7 +335,8 @@ class Prop(object):
                "T1 translations of the ten version-implication functions (differentially self-checked)",
                "serialised data-unit lengths are taken from the real serialiser (its round trip is C06/C21)"]
     assumptions = ["every data unit has an explicit parse code; padding/auxiliary units with an explicit next_parse_offset use the consistent value 13 + payload length",
-                   "documented defaults of omitted non-AUTO fields are the serialiser's (C21): only fragment_slice_count's default (0) matters here and is modelled"]
+                   "documented defaults of omitted fields: the six the autofill passes consult (wavelet_index, the two asymmetry flags, wavelet_index_ho, dwt_depth_ho, "
+                   "fragment_slice_count) are GENERATED from the default table into the model; that the serialiser writes defaults for everything else is C21"]
 
     def correspond(self, ctx):
         rng = ctx.rng("af")
